@@ -739,18 +739,11 @@ class CSSStyleSheet(cssutils.stylesheets.StyleSheet):
                             index = len(self._cssRules) - i
                             break
                 else:
-                    # find first point to insert
-                    for i, r in enumerate(self._cssRules):
-                        if r.type in (
-                            r.VARIABLES_RULE,
-                            r.MEDIA_RULE,
-                            r.PAGE_RULE,
-                            r.STYLE_RULE,
-                            r.FONT_FACE_RULE,
-                            r.UNKNOWN_RULE,
-                            r.COMMENT,
-                        ):
-                            index = i  # before these
+                    # directly after the last @charset or @import, if any
+                    index = 0
+                    for i, r in enumerate(reversed(self._cssRules)):
+                        if r.type in (r.CHARSET_RULE, r.IMPORT_RULE):
+                            index = len(self._cssRules) - i
                             break
             else:
                 # after @charset and @import
@@ -798,17 +791,15 @@ class CSSStyleSheet(cssutils.stylesheets.StyleSheet):
                             index = len(self._cssRules) - i
                             break
                 else:
-                    # find first point to insert
-                    for i, r in enumerate(self._cssRules):
+                    # directly after the last @charset, @import or @namespace, if any
+                    index = 0
+                    for i, r in enumerate(reversed(self._cssRules)):
                         if r.type in (
-                            r.MEDIA_RULE,
-                            r.PAGE_RULE,
-                            r.STYLE_RULE,
-                            r.FONT_FACE_RULE,
-                            r.UNKNOWN_RULE,
-                            r.COMMENT,
+                            r.CHARSET_RULE,
+                            r.IMPORT_RULE,
+                            r.NAMESPACE_RULE,
                         ):
-                            index = i  # before these
+                            index = len(self._cssRules) - i
                             break
             else:
                 # after @charset @import @namespace
